@@ -1590,10 +1590,24 @@ def main(run):
             u = j["unit"].split(":")[1]
             if u in w32 or (u in ("unit_bign", "unit_g12s", "unit_dstu", "unit_keys", "unit_seeds") and j["params"].get("set", "").endswith(("1", "test", "0"))):
                 js.append(dict(j, cfg="asan32"))
+    # the group validators of the EC layer (ecp.c / ec2.c are anchors of C12): C06's validator units on complete small curves,
+    # which contain groups whose embedding degree / cofactor / order sit exactly on the decision boundary
+    from . import c06
+    borrowed = [dict(j, cfg="asan64") for j in c06.jobs(run.tier)
+                if (j["unit"] == "c06:unit_sp_scalar" and j["params"].get("part") == "misc")
+                or (j["unit"] == "c06:unit_b2" and j["params"].get("part") == "scalar")]
+    js += borrowed
+    run.coverage_extra["borrowed_c06_validator_jobs"] = len(borrowed)
     # longest first
     order = {"unit_pfok": 0, "unit_stb99": 1, "unit_gen": 2, "unit_dstu": 3, "unit_g12s": 4, "unit_bign": 5}
     js.sort(key=lambda j: order.get(j["unit"].split(":")[1], 9))
     run.run_jobs(js)
+    # of the borrowed units keep only what C12 states (validators); the rest belongs to C06
+    keep = ("ecpIs", "ec2Is", "ecpSeems", "ec2Seems", "ecHasOrderA", "asan:", "ubsan:", "assert:", "signal:")
+    c06keys = ("ecMulA", "ecAddMulA", "ecpSWU", "ecpCreateJ", "ecNeg", "ecDbl", "ecAdd", "ecSub", "ecTo", "ecFrom")
+    for key in list(run.viol):
+        if key.startswith(c06keys) and not key.startswith(keep):
+            run.viol.pop(key)
     run.coverage_extra["exhaustive"] = {
         "tmDateIsValid2: each octet pair x 65536 (two bases per pair), all 36525 dates of 2000-2099": True,
         "priIsPrimeW/priIsPrime/priNextPrimeW on [0, 2^%d) and [2^32 - 2^%d, 2^32 + 2^%d)" % ((17, 13, 13) if run.tier == "quick" else (20, 16, 16)): True,
